@@ -62,7 +62,7 @@ WSendump(s, be) ==
     \o (IF s.clust # 0 THEN SdStr(KEY_CLUST \o Dec(s.clust), be) \o SdStr(KEY_BITS \o Dec(s.bits), be) ELSE <<>>)
     \o Wr32(0, be)
     \o (IF s.clust = 0 THEN Wr32(s.rows, be) \o Wr32(s.cols, be) ELSE [i \in 1 .. 16 |-> (i - 1) * 8])
-    \o [i \in 1 .. s.n_feat * s.rows * step |-> (17 * i) % 251]
+    \o [i \in 1 .. s.n_feat * s.rows * step |-> (17 * i) % 97]     \* quantised weights stay below MAX_NEG_MIXW
 
 WMdef(m, be) ==
     LET names == Flat([i \in 1 .. Len(m.cin) |-> m.cin[i] \o <<0>>])
@@ -82,12 +82,16 @@ WMdef(m, be) ==
 FP_1S_C_2 == <<123, 34, 102, 101, 97, 116, 34, 58, 34, 49, 115, 95, 99, 34, 44, 34, 99, 101, 112, 108, 101, 110, 34, 58, 50, 44, 34, 110, 99, 101, 112, 34, 58, 50, 44, 34, 110, 102, 105, 108, 116, 34, 58, 52, 44, 34, 99, 109, 110, 34, 58, 34, 110, 111, 110, 101, 34, 44, 34, 114, 101, 109, 111, 118, 101, 95, 110, 111, 105, 115, 101, 34, 58, 102, 97, 108, 115, 101, 125, 10>>
 FP_1S_C_3 == <<123, 34, 102, 101, 97, 116, 34, 58, 34, 49, 115, 95, 99, 34, 44, 34, 99, 101, 112, 108, 101, 110, 34, 58, 51, 44, 34, 110, 99, 101, 112, 34, 58, 51, 44, 34, 110, 102, 105, 108, 116, 34, 58, 52, 44, 34, 99, 109, 110, 34, 58, 34, 110, 111, 110, 101, 34, 44, 34, 114, 101, 109, 111, 118, 101, 95, 110, 111, 105, 115, 101, 34, 58, 102, 97, 108, 115, 101, 125, 10>>
 
+(* the feature parameters of both bundled models: 13 cepstra, 1s_c_d_dd cut into the subvectors 0-12/13-25/26-38 *)
+FP_BUNDLED == <<123, 10, 34, 108, 111, 119, 101, 114, 102, 34, 58, 32, 49, 51, 48, 44, 10, 34, 117, 112, 112, 101, 114, 102, 34, 58, 32, 51, 55, 48, 48, 44, 10, 34, 110, 102, 105, 108, 116, 34, 58, 32, 50, 48, 44, 10, 34, 116, 114, 97, 110, 115, 102, 111, 114, 109, 34, 58, 32, 34, 100, 99, 116, 34, 44, 10, 34, 108, 105, 102, 116, 101, 114, 34, 58, 32, 50, 50, 44, 10, 34, 102, 101, 97, 116, 34, 58, 32, 34, 49, 115, 95, 99, 95, 100, 95, 100, 100, 34, 44, 10, 34, 115, 118, 115, 112, 101, 99, 34, 58, 32, 34, 48, 45, 49, 50, 47, 49, 51, 45, 50, 53, 47, 50, 54, 45, 51, 56, 34, 44, 10, 34, 99, 109, 110, 34, 58, 32, 34, 99, 117, 114, 114, 101, 110, 116, 34, 44, 10, 34, 118, 97, 114, 110, 111, 114, 109, 34, 58, 32, 102, 97, 108, 115, 101, 44, 10, 34, 114, 101, 109, 111, 118, 101, 95, 110, 111, 105, 115, 101, 34, 58, 32, 116, 114, 117, 101, 10, 125, 10>>
+
 (* what decoder_init makes of a feature-parameter file: only texts written here are interpreted; no file means
    the defaults (feat 1s_c_d_dd, 13 cepstra: one stream of 39) *)
 FeatCfg(f) ==
     IF ~Present(f) THEN [st |-> "ok", n_stream |-> 1, veclen |-> 39]
     ELSE IF f.len = Len(FP_1S_C_2) /\ Known(f, 0, f.len) /\ Slice(f, 0, f.len) = FP_1S_C_2 THEN [st |-> "ok", n_stream |-> 1, veclen |-> 2]
     ELSE IF f.len = Len(FP_1S_C_3) /\ Known(f, 0, f.len) /\ Slice(f, 0, f.len) = FP_1S_C_3 THEN [st |-> "ok", n_stream |-> 1, veclen |-> 3]
+    ELSE IF f.len = Len(FP_BUNDLED) /\ Known(f, 0, f.len) /\ Slice(f, 0, f.len) = FP_BUNDLED THEN [st |-> "ok", n_stream |-> 3, veclen |-> 13]
     ELSE [st |-> "unk"]
 
 MiniMdef ==
